@@ -94,18 +94,23 @@ static const char *SCHEME[2] = {"nts", "dss"};
 //   share   honest code on a corrupted key share (x_i resp. z_i off by one after key generation): the only
 //           deviation that reliably reaches the checks of the second half of Sign (the switch's nested
 //           coins end a faulty run early with probability > 0.999, see notes)
-enum { FM_NONE = 0, FM_LIB = 1, FM_SCRIPT = 2, FM_SHARE = 3 };
-static const char *FMODE[4] = {"none", "lib", "script", "share"};
+//   bcalter honest code, but the payload of the party's k-th own reliable broadcast inside the (single) signing phase is
+//           altered (+1, the same for every recipient): "a signer that sends one wrong value at step X" for every X,
+//           enumerated by k — the fault positions the library's own switch practically never reaches (steps 1d-2f)
+enum { FM_NONE = 0, FM_LIB = 1, FM_SCRIPT = 2, FM_SHARE = 3, FM_BCALT = 4 };
+static const char *FMODE[5] = {"none", "lib", "script", "share", "bcalter"};
 
 struct Scenario {
 	int scheme = NTS; size_t n = 3, t = 1; std::vector<size_t> faulty; int fmode = FM_NONE;
 	int keygen_faulty = -1;   // -1: decided by the case rng; 0/1 forced
 	int cut = -2;             // scripted mode: -2 rng, -1 never drops out, >=0 randomizer index of the drop-out
 	int rep = 0;
+	long alter_k = 0;         // bcalter: 1-based index of the own broadcast of the signing phase whose payload is altered
 	bool bigmsg = false;      // DSS: key generation + one signature on a 256-bit message (expected: refusal)
 	double preempt = 0.0;     // probability of a task switch after a Send
 	std::string desc() const {
 		J d; d.kv("kind", "run").kv("scheme", SCHEME[scheme]).kv("n", (long long)n).kv("thr", (long long)t).arrn("faulty", faulty).kv("fmode", FMODE[fmode]).kv("rep", rep);
+		if (fmode == FM_BCALT) d.kv("alter_k", (long long)alter_k);
 		if (bigmsg) d.kv("bigmsg", true);
 		if (preempt > 0) d.kv("preempt", preempt);
 		return d.str();
@@ -138,6 +143,30 @@ struct Run {
 	std::vector<long> cur_phase;             // [party] phase it is in (-1: barrier / none)
 	std::vector<bool> in_reduced;            // [party] running on the reduced channel set
 	size_t t_rbc = 0, t_rbc_r = 0;
+	std::vector<long> bc_in_sign;            // [party] own broadcasts during the signing phase (bcalter)
+	bool alter_fired = false;
+};
+
+// broadcast-layer endpoint of a party that alters the payload of its k-th own broadcast while `enabled`
+// (own broadcast = r-send tuple (ID, j, s, 1, payload) with j = owner; a new (ID, s) pair is a new broadcast)
+class AlterUnicast : public SimUnicast {
+public:
+	bool enabled = false, fired = false, have_last = false, repl = false; long k = 0, nb = 0;
+	mpz_t last_id, last_s, repl_val;
+	AlterUnicast(size_t n_, size_t j_, Net *nt, size_t sched, time_t to) : SimUnicast(n_, j_, nt, sched, to) { mpz_init(last_id); mpz_init(last_s); mpz_init(repl_val); }
+	~AlterUnicast() { mpz_clear(last_id); mpz_clear(last_s); mpz_clear(repl_val); }
+	bool Send(mpz_srcptr m, const size_t i, time_t to) override { return SimUnicast::Send(m, i, to); }
+	bool Send(const std::vector<mpz_srcptr> &m, const size_t i, time_t to) override {
+		if (m.size() == 5 && mpz_cmp_ui(m[3], 1UL) == 0 && mpz_cmp_ui(m[1], (unsigned long)j) == 0) {
+			bool first = !(have_last && mpz_cmp(m[0], last_id) == 0 && mpz_cmp(m[2], last_s) == 0);
+			if (first) {
+				have_last = true; mpz_set(last_id, m[0]); mpz_set(last_s, m[2]); repl = false;
+				if (enabled) { nb++; if (nb == k && !fired) { fired = true; repl = true; mpz_add_ui(repl_val, m[4], 1UL); } }
+			}
+			if (repl) { std::vector<mpz_srcptr> mm(m); mm[4] = repl_val; return SimUnicast::Send(mm, i, to); }
+		}
+		return SimUnicast::Send(m, i, to);
+	}
 };
 
 static bool all_honest_true(const Run &R, size_t ph, bool members_only = false) {
@@ -156,11 +185,14 @@ static void run_scenario(Run &R) {
 	const Scenario &sc = R.sc; const Grp &G = *R.G; size_t n = sc.n, t = sc.t;
 	Rng cr = case_rng(R.kcase, 7);
 	R.isfaulty.assign(n, false); for (size_t f : sc.faulty) R.isfaulty[f] = true;
-	R.dead.assign(n, false); R.inset.assign(n, false);
+	R.dead.assign(n, false); R.inset.assign(n, false); R.bc_in_sign.assign(n, 0);
 	R.logs.assign(n, "");
 	// phases and messages
 	int m0 = (int)((R.kcase + sc.rep) % 5);
-	if (sc.scheme == NTS) {
+	if (sc.fmode == FM_BCALT) {
+		R.phases.push_back({PH_GEN, -1, "gen"});
+		R.phases.push_back({PH_SIGN, sc.scheme == NTS ? m0 : dss_msg(m0), "fresh"});
+	} else if (sc.scheme == NTS) {
 		R.phases.push_back({PH_GEN, -1, "gen"});
 		for (int k = 0; k < 5; k++) R.phases.push_back({PH_SIGN, (m0 + k) % 5, "fresh"});
 	} else if (sc.bigmsg) {
@@ -242,7 +274,8 @@ static void run_scenario(Run &R) {
 		sched.spawn([&, i]() {
 			std::stringstream err;
 			try {
-				SimUnicast aiou(n, i, &uni, RR, R.TO), aiou2(n, i, &bc, RR, R.TO);
+				SimUnicast aiou(n, i, &uni, RR, R.TO); AlterUnicast aiou2(n, i, &bc, RR, R.TO);
+				if (R.isfaulty[i] && sc.fmode == FM_BCALT) aiou2.k = sc.alter_k;
 				CachinKursawePetzoldShoupRBC rbc(n, t_rbc, i, &aiou2, RR, R.TO);
 				rbc.setID("c16-simnet");
 				std::unique_ptr<SimUnicast> raiou, raiou2; std::unique_ptr<CachinKursawePetzoldShoupRBC> rrbc;
@@ -257,7 +290,7 @@ static void run_scenario(Run &R) {
 				if (sc.scheme == NTS) nts.reset(new GennaroJareckiKrawczykRabinNTS(n, t, i, G.p, G.q, G.g, G.h, FS, GS, true, false));
 				else dss.reset(new CanettiGennaroJareckiKrawczykRabinDSS(n, t, i, G.p, G.q, G.g, G.h, FS, GS, true, false));
 				bool corrupt_share = R.isfaulty[i] && sc.fmode == FM_SHARE;
-				bool fl = R.isfaulty[i] && sc.fmode != FM_SHARE;
+				bool fl = R.isfaulty[i] && sc.fmode != FM_SHARE && sc.fmode != FM_BCALT;
 				mpz_t a, s; mpz_init(a); mpz_init(s);
 				struct Clr { mpz_ptr a, s; ~Clr() { mpz_clear(a); mpz_clear(s); } } clr{a, s};
 				for (size_t ph = 0; ph < R.phases.size(); ph++) {
@@ -291,7 +324,9 @@ static void run_scenario(Run &R) {
 					case PH_SIGN: {
 						o.called = true; mpz_set_ui(a, 0); mpz_set_ui(s, 0);
 						if (fl && !R.script.empty()) { tl_task->rng.script = R.script[ph]; tl_task->rng.script_pos = 0; tl_task->rng.scripted = true; }
+						aiou2.enabled = true; aiou2.nb = 0;
 						o.ret = nts ? nts->Sign(m, a, s, &aiou, &rbc, err, fl) : dss->Sign(n, i, m, a, s, &aiou, &rbc, err, fl);
+						aiou2.enabled = false; R.bc_in_sign[i] = aiou2.nb; if (aiou2.fired) R.alter_fired = true;
 						tl_task->rng.scripted = false;
 						o.a = mpz_dec(a); o.s = mpz_dec(s); state();
 						if (o.ret) o.lv = nts ? nts->Verify(m, a, s) : dss->Verify(m, a, s);
@@ -396,6 +431,11 @@ static void do_run_case(long k, const Scenario &sc) {
 	}
 	count(pre + "runs"); count("simnet_spin_parks", (long long)R.st.spin_parks); count("simnet_broadcast_layer_messages", (long long)R.st.bc_sent); count("simnet_unicast_messages", (long long)R.st.uni_sent);
 	if (sc.fmode == FM_SCRIPT) count(pre + "scripted_cut_" + (R.cut < 0 ? std::string("never") : std::to_string(R.cut)));
+	if (sc.fmode == FM_BCALT) {
+		count(pre + (R.alter_fired ? "bcalter_fired" : "bcalter_beyond_last_broadcast"));
+		long mx = 0; for (size_t i = 0; i < sc.n; i++) if (!R.isfaulty[i]) mx = std::max(mx, R.bc_in_sign[i]);
+		count(pre + "bcalter_sign_broadcasts_per_honest_party_n" + std::to_string(sc.n) + "=" + std::to_string(mx));
+	}
 	std::string ld = ctx.option("logdir");
 	if (!ld.empty()) for (size_t i = 0; i < sc.n; i++) { std::ofstream f(ld + "/case" + std::to_string(k) + "_P" + std::to_string(i) + ".log"); f << R.logs[i]; }
 	case_end(sc.desc(), evals > 0, sample, evals, distinct);
@@ -541,7 +581,8 @@ int main(int argc, char **argv) {
 		s.scheme = std::string(sch) == "dss" ? DSS : NTS; s.n = n; s.t = t;
 		if (got == 4) { std::stringstream ss(fl); std::string tok; while (std::getline(ss, tok, ',')) if (!tok.empty()) s.faulty.push_back((size_t)atol(tok.c_str())); }
 		std::string fm = ctx.option("fmode", s.faulty.empty() ? "none" : "lib");
-		s.fmode = fm == "script" ? FM_SCRIPT : (fm == "lib" ? FM_LIB : (fm == "share" ? FM_SHARE : FM_NONE));
+		s.fmode = fm == "script" ? FM_SCRIPT : (fm == "lib" ? FM_LIB : (fm == "share" ? FM_SHARE : (fm == "bcalter" ? FM_BCALT : FM_NONE)));
+		s.alter_k = ctx.option_l("alter_k", 1);
 		s.keygen_faulty = (int)ctx.option_l("keygen_faulty", -1);
 		std::string cut = ctx.option("cut"); if (!cut.empty()) s.cut = cut == "none" ? -1 : atoi(cut.c_str());
 		s.preempt = atof(ctx.option("preempt", "0").c_str()); s.bigmsg = !ctx.option("bigmsg").empty();
@@ -572,6 +613,26 @@ int main(int argc, char **argv) {
 				Scenario s; s.scheme = scheme; s.n = n; s.t = t; s.faulty = sets[si]; s.fmode = FM_SHARE; s.keygen_faulty = 0;
 				long kk = k++; if (!case_begin(kk, s.desc())) continue; do_run_case(kk, s);
 			}
+		}
+	}
+	// one altered broadcast of one signer at every position of the signing phase (appended last, see above).
+	// DSS::Sign makes 96 broadcasts per party for n = 4 (measured, counter *_bcalter_sign_broadcasts_*), NTS::Sign 8;
+	// positions beyond the last broadcast do not fire and are counted as such.
+	{
+		bool q = ctx.quick();
+		auto add = [&](int scheme, size_t n, size_t t, long kk_alter) {
+			Scenario s; s.scheme = scheme; s.n = n; s.t = t; s.faulty = {(size_t)(kk_alter % (long)n)}; s.fmode = FM_BCALT; s.alter_k = kk_alter; s.keygen_faulty = 0;
+			long kk = k++; if (!case_begin(kk, s.desc())) return; do_run_case(kk, s);
+		};
+		if (q) {
+			long off = (long)(ctx.seed % 6);
+			for (long i = 0; i < 16; i++) add(DSS, 4, 1, 1 + (off + 6 * i) % 96);
+			for (long kk_alter = 1; kk_alter <= 8; kk_alter++) add(NTS, 4, 1, kk_alter);
+		} else {
+			for (long kk_alter = 1; kk_alter <= 100; kk_alter++) add(DSS, 4, 1, kk_alter);
+			for (long i = 0; i < 40; i++) add(DSS, 5, 1, 1 + (long)((ctx.seed + 3 * i) % 120));
+			for (long i = 0; i < 12; i++) add(DSS, 7, 2, 1 + (long)((ctx.seed * 7 + 13 * i) % 160));
+			for (long kk_alter = 1; kk_alter <= 10; kk_alter++) { add(NTS, 4, 1, kk_alter); add(NTS, 5, 1, kk_alter); add(NTS, 7, 2, kk_alter); }
 		}
 	}
 	finish();
